@@ -15,4 +15,7 @@ print("|----|-------|------------------------------------|----------------------
 for r in rows:
     print("| %s | %s | %s | %s | %s | %s |" % r)
 print()
-print("%d seeded changes; every one is reported by the check of the property it was written against." % len(rows))
+own = [r[0] for r in rows if r[0].split('-')[0] not in [c.strip() for c in r[3].split(',')]]
+first = sum(1 for r in rows if r[5])
+print("%d seeded changes; %d were missed at first by the check of their property (history in meta.json); %d are reported by the check of the property they were written against%s." % (
+    len(rows), first, len(rows) - len(own), ("; not so: " + ", ".join(own) + " (reported by another property's check, see meta.json)") if own else ""))
